@@ -138,8 +138,39 @@ func witnessD8(id int) concCase {
 			one(clock(t+16*sec/5)), runN(4, 3), finishAll(5))}
 }
 
+// witnessLosesTwice: three callers contend on one compare-and-swap and one of them loses the race twice.
+// Callers: 0=A 1=B 2=C. threshold 1/s, max queueing 10 s, all arrive at +0.0.
+// A loads the initial value and is parked before its CAS; B is scheduled for +0.0; A's CAS fails, A reloads
+// (+0.0) and is parked again; C is scheduled for +1.0; A's second CAS fails too; A reloads +1.0 and is
+// scheduled for +2.0 (wait 2 s, far below the limit).  A loop that gave up after some attempts would
+// reject A although honouring the spacing needs only 2 s.
+func witnessLosesTwice(id int) concCase {
+	t := t0ns
+	return concCase{ID: id, Name: "cas-lost-twice", T: 1, TimeoutMs: 10000, StatMs: 0, Batches: []uint32{1, 1, 1},
+		Events: cat(one(clock(t)), runN(0, 2),
+			runN(1, 3),
+			runN(0, 2),
+			runN(2, 3),
+			runN(0, 1), finishAll(3))}
+}
+
+// witnessLosesOften: the same with five callers: caller 0 loses four races in a row and is scheduled last.
+func witnessLosesOften(id int) concCase {
+	t := t0ns
+	ev := cat(one(clock(t)), runN(0, 2))
+	for other := 1; other <= 4; other++ {
+		ev = cat(ev, runN(other, 3), runN(0, 2))
+	}
+	return concCase{ID: id, Name: "cas-lost-four-times", T: 2, TimeoutMs: 60000, StatMs: 0, Batches: []uint32{1, 1, 1, 1, 1},
+		Events: cat(ev, finishAll(5))}
+}
+
 func genConc(r *rng.R, id int) concCase {
 	switch id - concBase {
+	case 3:
+		return witnessLosesTwice(id)
+	case 4:
+		return witnessLosesOften(id)
 	case 0:
 		return witnessD8Old(id)
 	case 1:
@@ -432,6 +463,11 @@ func monitorConc(c concCase, o concObs, rep *emit.Report) (overlap bool) {
 				ledger = o.Arrival[i] + o.Out[i].Wait
 				lastSucc, lastSuccTid = ei, i
 			}
+		case at == 202 && l == sched.Done && !o.Out[i].Pass && b > 0 && !early(T, b):
+			// a compare-and-swap step never ends a call with a rejection: a caller is rejected only on a value
+			// it loaded (needing more than the limit), however many races it has lost
+			nw := needWait(ledger, ivOf(T, c.StatMs, b), o.Arrival[i])
+			fail("C10_conc_reject_only_if_needed", "conc-rejected-after-lost-cas", "caller %d was rejected at its compare-and-swap (event %d) after losing the race; latest pass %d + interval %d - arrival %d = %s, limit %d", i, ei, ledger, ivOf(T, c.StatMs, b), o.Arrival[i], nw, maxq)
 		case at == 202 && l == 201:
 			// failed CAS: another caller's CAS must have succeeded since this caller's load
 			// (a caller still in its loop has not succeeded itself)
